@@ -85,13 +85,13 @@ func httpSchema(ptr bool) *eng.Node {
 
 func streamHTTP(seed uint64, n int, driver string) (*Summary, error) {
 	sum := newSummary("http", seed)
-	sum.Rule = "product of 9 methods x 14 Content-Type values (bare, with parameters, with whitespace, unknown, empty) x 13 body classes (valid object, {}, truncated, array, number, null, empty, valid form, malformed form, object followed by text / a bracket / a second object, object followed by white space) x 5 query shapes (none, single, repeated, k[] list, other keys) x {Struct, Ptr(Struct)} with a distinct sentinel per source; exhaustive over the product when n is large, sampled otherwise; non-trivial = every case (each fixes one source choice); distinct = distinct case line"
+	sum.Rule = "product of 9 methods x 14 Content-Type values (bare, with parameters, with whitespace, unknown, empty) x 15 body classes (valid object, {}, truncated, array, number, null, empty, valid form, malformed form, object followed by text / a bracket / a second object, object followed by white space, forms with a single blank k[] value) x 8 query shapes (none, single, repeated, k[] list, other keys, a single blank / white-space k[] value, blank values) x {Struct, Ptr(Struct)} with a distinct sentinel per source, under a rotating formatter level (default, execution es/en, i18n es, i18n after a history of installations); exhaustive over the product when n is large, sampled otherwise; non-trivial = every case (each fixes one source choice); distinct = distinct case line"
 	methods := []string{"GET", "HEAD", "POST", "PUT", "PATCH", "DELETE", "OPTIONS", "get", "CUSTOM"}
 	ctypes := []string{"application/json", "application/json; charset=utf-8", "application/json;charset=utf-8", "application/json ;x=1", "application/x-www-form-urlencoded",
 		"application/x-www-form-urlencoded; charset=UTF-8", "multipart/form-data; boundary=x", "text/plain", "", ";application/json", "Application/JSON", "application/jsonx", "application/json;", "text/plain; a=application/json"}
 	bodies := []string{`{"j_name":"J","num":3,"tags":["tj1","tj2"],"one":"oj"}`, `{}`, `{"j_name":"J"`, `["j_name"]`, `17`, `null`, ``, `f_name=F&num=4&tags%5B%5D=tf1&tags%5B%5D=tf2&one=of`, `f_name=%zz&num=4`,
-		`{"j_name":"J"} trailing`, `{"j_name":"J"}]`, `{"j_name":"J"}{"j_name":"K"}`, "{\"j_name\":\"J\",\"num\":7} \n\t "}
-	queries := []string{"", "q_name=Q&num=5", "q_name=Q&q_name=Q2&one=a&one=b", "q_name=Q&tags%5B%5D=tq1", "zzz=1&f_name=QF&j_name=QJ"}
+		`{"j_name":"J"} trailing`, `{"j_name":"J"}]`, `{"j_name":"J"}{"j_name":"K"}`, "{\"j_name\":\"J\",\"num\":7} \n\t ", `f_name=F&tags%5B%5D=`, `f_name=F&tags%5B%5D=++&one=`}
+	queries := []string{"", "q_name=Q&num=5", "q_name=Q&q_name=Q2&one=a&one=b", "q_name=Q&tags%5B%5D=tq1", "zzz=1&f_name=QF&j_name=QJ", "q_name=Q&tags%5B%5D=", "q_name=Q&tags%5B%5D=%20&num=", "q_name=&tags%5B%5D=a&tags%5B%5D="}
 	type combo struct {
 		m, ct, body, q string
 		ptr            bool
@@ -132,6 +132,8 @@ func streamHTTP(seed uint64, n int, driver string) (*Summary, error) {
 		}
 		schema := httpSchema(c.ptr)
 		cs := &eng.Case{ID: i, Mode: "p", Schema: schema, Dest: eng.SentinelZero(schema)}
+		// the formatter level varies too: decode failures must get their message the way every issue does
+		cs.Fmt = []string{"", "exec:es", "", "i18n:es", "i18nh:locale,-:lang=es,locale=en", "exec:en", ""}[i%7]
 		rec := eng.NewRecorder()
 		zs := eng.Build(schema, rec)
 		res := eng.RunBuiltData(zs, cs, rec, zhttp.Request(mk()))
@@ -179,7 +181,11 @@ func streamHTTP(seed uint64, n int, driver string) (*Summary, error) {
 			}
 			ord = append(ord, sx.L(it...))
 		}
-		lines = append(lines, sx.T("http", sx.I(int64(i)), sx.S(c.m), sx.S(c.ct), urlValuesSx(q), formS, jsonS, schemaS, cs.Dest.Sx(), sx.T("order", ord...), ext.Sx()).String())
+		items := []*sx.Node{sx.I(int64(i)), sx.S(c.m), sx.S(c.ct), urlValuesSx(q), formS, jsonS, schemaS, cs.Dest.Sx(), sx.T("order", ord...), ext.Sx()}
+		if f := cs.FmtSx(); f != nil {
+			items = append(items, f)
+		}
+		lines = append(lines, sx.T("http", items...).String())
 		// which source did the real code read? revealed by the sentinel
 		impls = append(impls, res.Sx(i).String())
 	}
@@ -215,6 +221,10 @@ func streamHTTP(seed uint64, n int, driver string) (*Summary, error) {
 		mp := mv.issueKeys(true, "code,path,dtype,msg", nil) + " " + mv.dest.String()
 		if ip != mp {
 			sum.addMismatch("C15", Mismatch{Case: lines[i], Impl: impls[i], Model: modelLine, What: fmt.Sprintf("model reads source %s; projection impl=%s model=%s", src, ip, mp)})
+			if iv.issueKeys(true, "code,path,dtype", nil) == mv.issueKeys(true, "code,path,dtype", nil) {
+				// the same issues with other messages: the message clause (C11)
+				sum.addMismatch("C11", Mismatch{Case: lines[i], Impl: impls[i], Model: modelLine, What: fmt.Sprintf("messages differ; projection impl=%s model=%s", ip, mp)})
+			}
 		}
 		if !distinct[lines[i]] {
 			distinct[lines[i]] = true
